@@ -45,7 +45,7 @@ def truthful_reply(text: str, solver: str) -> tuple[str, str, int]:
                 fh.write(text)
             cmd = (YICES if solver == "yices" else Z3BIN) + [f]
             try:
-                p = _real_subprocess.run(cmd, capture_output=True, text=True, timeout=4)
+                p = _real_subprocess.run(cmd, capture_output=True, text=True, timeout=10)
                 r = (p.stdout, p.stderr, p.returncode)
             except _real_subprocess.TimeoutExpired:
                 # a wall-clock event: the run that meets it is reported as inconclusive, never judged
